@@ -399,7 +399,86 @@ func IWrap(a *Term, bits int, signed bool) *Term {
 }
 
 // ----- arrays -----
-func Select(a, i *Term) *Term { return App("select", *a.S.Elem, a, i) }
+// Select simplifies reads over chains of stores whose indices are syntactically comparable
+// (same symbolic base, constant offsets): select(store(a, b+1, v), b+1) = v, select(store(a, b+1, v), b+3) = select(a, b+3).
+func Select(a, i *Term) *Term {
+	ib, io, iok := linIdx(i, 0)
+	for iok {
+		arr := a
+		if arr.Op == "sym" {
+			if d, ok := CurDefs[arr.Name]; ok {
+				arr = d
+			}
+		}
+		if arr.Op != "store" {
+			break
+		}
+		sb, so, sok := linIdx(arr.Args[1], 0)
+		if !sok || sb != ib {
+			break
+		}
+		if so.Cmp(io) == 0 {
+			return arr.Args[2]
+		}
+		a = arr.Args[0]
+	}
+	return App("select", *a.S.Elem, a, i)
+}
+
+// CurDefs: named definitions of the function currently being processed (VC generation is sequential).
+var CurDefs = map[string]*Term{}
+
+// linIdx decomposes an index term into a symbolic base and a constant offset.
+func linIdx(t *Term, depth int) (string, *big.Int, bool) {
+	if depth > 40 {
+		return "", nil, false
+	}
+	norm := func(v *big.Int) *big.Int {
+		if t.S.K == SBV {
+			return new(big.Int).Mod(v, Pow2(t.S.W))
+		}
+		return v
+	}
+	switch t.Op {
+	case "const":
+		return "", norm(t.Val), true
+	case "sym":
+		if d, ok := CurDefs[t.Name]; ok {
+			return linIdx(d, depth+1)
+		}
+		return t.Name, big.NewInt(0), true
+	case "bvadd", "+":
+		base := ""
+		off := big.NewInt(0)
+		for _, a := range t.Args {
+			b, o, ok := linIdx(a, depth+1)
+			if !ok {
+				return "", nil, false
+			}
+			if b != "" {
+				if base != "" {
+					if base > b {
+						base, b = b, base
+					}
+					base = base + "+" + b
+				} else {
+					base = b
+				}
+			}
+			off = new(big.Int).Add(off, o)
+		}
+		return base, norm(off), true
+	case "bvsub", "-":
+		if len(t.Args) == 2 {
+			b, o, ok := linIdx(t.Args[0], depth+1)
+			b2, o2, ok2 := linIdx(t.Args[1], depth+1)
+			if ok && ok2 && b2 == "" {
+				return b, norm(new(big.Int).Sub(o, o2)), true
+			}
+		}
+	}
+	return t.String(), big.NewInt(0), true
+}
 func Store(a, i, v *Term) *Term {
 	return App("store", a.S, a, i, v)
 }
@@ -408,6 +487,28 @@ func Store(a, i, v *Term) *Term {
 func BVBin(op string, a, b *Term) *Term {
 	if !a.S.Eq(b.S) {
 		panic(fmt.Sprintf("BVBin %s: sort mismatch %s vs %s", op, a.S, b.S))
+	}
+	if a.IsConst() && b.IsConst() {
+		switch op {
+		case "bvadd":
+			return BVC(new(big.Int).Add(a.Val, b.Val), a.S.W)
+		case "bvsub":
+			return BVC(new(big.Int).Sub(a.Val, b.Val), a.S.W)
+		case "bvmul":
+			return BVC(new(big.Int).Mul(a.Val, b.Val), a.S.W)
+		case "bvand":
+			return BVC(new(big.Int).And(a.Val, b.Val), a.S.W)
+		case "bvor":
+			return BVC(new(big.Int).Or(a.Val, b.Val), a.S.W)
+		case "bvxor":
+			return BVC(new(big.Int).Xor(a.Val, b.Val), a.S.W)
+		}
+	}
+	if (op == "bvadd" || op == "bvor" || op == "bvxor") && a.IsConst() && a.Val.Sign() == 0 {
+		return b
+	}
+	if (op == "bvadd" || op == "bvsub" || op == "bvor" || op == "bvxor") && b.IsConst() && b.Val.Sign() == 0 {
+		return a
 	}
 	return App(op, a.S, a, b)
 }
